@@ -404,7 +404,7 @@ def run_tty(fzf, job):
         args += ["--with-nth", job["nth"]]
     sh = "exec " + " ".join("'%s'" % a for a in args) + " < '%s'" % fifo
     tm = ["tmux", "-L", sock, "-f", "/dev/null"]
-    st, note = None, ""
+    st, note, hdr_seen = None, "", []
     r = subprocess.run(tm + ["new-session", "-d", "-x", "100", "-y", "30", sh], env=go_env({"TERM": "xterm"}),
                        capture_output=True, text=True)
     if r.returncode != 0:
@@ -432,11 +432,20 @@ def run_tty(fzf, job):
             if st and not st["reading"] and st["matchCount"] == st["totalCount"] and st["matches"] and \
                     st["matches"][-1]["text"] == marker:
                 break
+            if st and not st["reading"] and job["header"] >= len(recs) and st["totalCount"] == 0 and w is not None and not w.is_alive():
+                break           # every record is a header line: nothing is listed, the whole stream has been written and read
             if time.time() > deadline:
                 note = "driver: the final list never showed the marker record (%s)" % note
                 break
             time.sleep(0.02)
         w.join(timeout=30)
+        if job["header"] and st is not None:
+            # header records on display: "r<i>:" at the start of a row, for record numbers within --header-lines
+            time.sleep(0.15)
+            cap = subprocess.run(tm + ["capture-pane", "-p", "-t", "0"], capture_output=True, text=True, env=go_env({"TERM": "xterm"}))
+            import re
+            hdr_seen = sorted({int(m.group(1)) for line in cap.stdout.split("\n") for m in [re.match(r"^\s*r(\d+):", line)] if m
+                               and int(m.group(1)) <= job["header"]})
     finally:
         subprocess.run(tm + ["kill-server"], capture_output=True)
         try:
@@ -447,6 +456,13 @@ def run_tty(fzf, job):
         raise Infra("interactive session: --listen never answered (%s)" % note)
     rec = dict(job)
     del rec["work"]
+    if job["header"] and not job["nth"]:
+        # records the driver can recognise in the header area: complete "r<i>:" prefix, not the blank-led variant, no
+        # multi-line content before it, and few enough to fit above the list (30 rows)
+        hrecs = recs[:min(job["header"], 20)]
+        plain = all(b"\n" not in b and b"\r" not in b and len(b) <= 90 for b in hrecs)     # one screen row per header record
+        rec["hdrLegible"] = [i + 1 for i, b in enumerate(hrecs) if plain and (i + 1) % 7 != 0 and b.startswith(b"r%d:" % (i + 1))]
+        rec["hdrSeen"] = [i for i in hdr_seen if i in rec["hdrLegible"]]     # only what the driver claims to recognise
     rec.update({"lens": lens, "unterm": unterm, "ids": [ident(r) for r in recs],
                 "out": [ident(m["text"].encode("utf-8")) for m in st["matches"]],
                 "idx": [m["index"] for m in st["matches"]], "total": st["totalCount"], "exit": -1, "stderr": note,
@@ -468,8 +484,9 @@ def bind_tty(ctx):
     rng = ctx.rng
     jobs = []
     for i in range(ctx.pick(24, 240)):
-        jobs.append({"seed": ctx.seed * 104729 + i, "prof": rng.choice(["medium", "medium", "big", "many" if i % 5 == 0 else "medium"]),
-                     "path": "interactive", "read0": rng.random() < 0.3, "header": rng.choice([0, 0, 1, 3]),
+        # every sixth session: a handful of short records and more --header-lines than records
+        jobs.append({"seed": ctx.seed * 104729 + i, "prof": "tiny" if i % 6 == 0 else rng.choice(["medium", "medium", "big", "many" if i % 5 == 0 else "medium"]),
+                     "path": "interactive", "read0": rng.random() < 0.3, "header": rng.choice([0, 0, 1, 3, 3, 12]) if i % 6 else 9,
                      "tail": rng.choice([0, 1, 2, 7, 99, 100, 101, 250, 1000]), "nth": rng.choice(["", "", "..", "{n} {1}"]),
                      "work": ctx.work})
     recs, bad = judge_binary(ctx, fzf, jobs, run_tty_retry, "tty", 4)
